@@ -1,5 +1,6 @@
 """C16 — T-Digest aggregates are exact regardless of compression (mass conservation in merge)."""
 from ..paths import PathEnumerator
+from ..guards import fv
 from ..terms import TermBuilder, fmt, mk, const, subterms, elem_of
 from ..guards import atomic_facts
 from .common import SELF, self_field
@@ -22,7 +23,18 @@ TD = "tdigest::TDigest"
 CE = "tdigest::Centroid"
 
 
+def insert_rules(ctx):
+    prog = ctx.prog
+    selfp = ("param", 1, "self")
+    iw = ctx.anchor(TI + "::insert_weighted")
+    _insert_weighted_inner(ctx, iw, selfp)
+
+
 def run(ctx):
+    # a digest that keeps state across clear() answers for a mixture of the old and the new data: C19's clear rules for TDigest
+    from .C19 import run_clear_rules
+    run_clear_rules(ctx, only_adt="tdigest::TDigestInner", floor=1)
+    run_clear_rules(ctx, only_adt="tdigest::TDigest", floor=1)
     prog = ctx.prog
     selfp = ("param", 1, "self")
     fu = ctx.anchor(CE + "::fuse")
@@ -32,6 +44,13 @@ def run(ctx):
         want = {"count": mk("Add", ("field", a, "count"), ("field", b, "count")), "sum": mk("Add", ("field", a, "sum"), ("field", b, "sum"))}
         ctx.check(r[0] == "adt" and dict(r[3]) == want, "R16-fuse", fu.key, fu, "fuse adds counts and sums", "Centroid::fuse is %s" % fmt(r))
     iw = ctx.anchor(TI + "::insert_weighted")
+    _insert_weighted_inner(ctx, iw, selfp)
+    pw = ctx.anchor(TD + "::insert_weighted")
+    _rest(ctx, pw, selfp)
+
+
+def _insert_weighted_inner(ctx, iw, selfp):
+    prog = ctx.prog
     if iw is not None:
         pe = PathEnumerator(iw, prog, ctx.summ)
         x, w = ("param", 2, "x"), ("param", 3, "w")
@@ -51,8 +70,14 @@ def run(ctx):
                 probs.append("min <- %s" % (fmt(mn[0]["value"]) if mn else "not updated"))
             if not (len(mx) == 1 and mx[0]["value"] == mk("max", ("field", selfp, "max"), x)):
                 probs.append("max <- %s" % (fmt(mx[0]["value"]) if mx else "not updated"))
+            ns = [e for e in ws if self_field(e) == "n_samples"]
+            if not (len(ns) == 1 and ns[0]["value"] == mk("Add", ("field", selfp, "n_samples"), const(1))):
+                probs.append("n_samples <- %s (the scale functions K2/K3 take it as the number of inserted samples: +1 per insert)" % (fmt(ns[0]["value"]) if ns else "not updated"))
         ctx.check(not probs and n >= 2, "R16-insert", iw.key, iw, "push {count: w, sum: x*w}; min/max folded with x (%d paths)" % n, "; ".join(sorted(set(probs))[:3]))
-    pw = ctx.anchor(TD + "::insert_weighted")
+
+
+def _rest(ctx, pw, selfp):
+    prog = ctx.prog
     if pw is not None:
         pe = PathEnumerator(pw, prog, ctx.summ)
         w = ("param", 3, "w")
@@ -64,7 +89,7 @@ def run(ctx):
                 continue
             facts = {repr(c): t for c, t in pe.path_facts(p)}
             ws = [e for e in p.events if e["kind"] == "write" and e["root"] == SELF and e["how"] != "borrow"]
-            if facts.get(repr(zero)) is True:
+            if fv(facts, zero) is True:
                 seen_zero = True
                 if ws or any(e["kind"] == "call" and e["name"] == "borrow_mut" for e in p.events):
                     probs.append("zero-weight insert touches the digest")
@@ -150,9 +175,10 @@ def conservation(ctx, mg):
         if okx:
             src = X1[2][0][1]
             proj = elem_of(("map", ("dummy",), X1[2][0][2]))
-            okx = proj == ("tfield", ("elem", ("dummy",)), 1) and src[0] == "call" and src[1].endswith("Vec::drain") and src[2][1] == full
+            okx = proj == ("tfield", ("elem", ("dummy",)), 1)
             if okx:
-                X0 = src[2][0]
+                # the first buffer is consumed either by drain(..) or by into_iter()
+                X0 = src[2][0] if (src[0] == "call" and src[1].endswith("Vec::drain") and src[2][1] == full) else src
                 okx = X0[0] == "call" and X0[1].endswith("collect") and X0[2][0][0] == "map" and X0[2][0][1][0] == "chain" and {repr(X0[2][0][1][1]), repr(X0[2][0][1][2])} == {repr(d_c), repr(d_b)}
                 if okx:
                     pair = elem_of(("map", ("dummy",), X0[2][0][2]))
